@@ -99,8 +99,8 @@ def showOut (op : ListOp) (o : Out) : String :=
 
 /-- `cfg` op: the configuration record without the closures, then one presence bit per policy -/
 def cfgDump (c : Cfg) : String :=
-  let bare := { c with ppf := none, vpf := none, rpf := none, eqf := none, umf := none, maf := none, evl := none }
-  let bits := String.join ([c.ppf, c.vpf, c.rpf, c.eqf, c.umf, c.maf, c.evl].map (fun o => b01 o.isSome))
+  let bare := { c with ppf := none, vpf := none, rpf := none, eqf := none, umf := none, maf := none, evl := none, lss := none }
+  let bits := String.join ([c.ppf, c.vpf, c.rpf, c.eqf, c.umf, c.maf, c.evl, c.lss].map (fun o => b01 o.isSome))
   s!"D\{{showCfg bare}}P{bits}"
 
 /-- model side of stream `hist` -/
